@@ -193,6 +193,11 @@ class Model(object):
     # dispatch
     # ======================================================================
     def apply(self, op):
+        ct = (op.get('h') or {}).get('content-type')
+        if ct and op.get('b') is not None and \
+                ct.split(';')[0].strip() != 'application/json':
+            # every route that reads a body insists on its declared type
+            return Expect(415)
         exp = self._apply(op)
         acc = (op.get('h') or {}).get('accept')
         if acc and op['m'] == 'GET' and exp.status == 200 and \
